@@ -61,10 +61,30 @@ func switchCases(info *types.Info, sw *ast.SwitchStmt) (vals map[int64]bool, has
 	return
 }
 
+// atomOf reduces a branch condition to its atom and polarity: "a != b" is the negation of the
+// atom "a == b" (so that a tree branching on one and a tree branching on the other are compared
+// over the same atom and not over two independent ones).
+func atomOf(c *Term) (*Term, bool) {
+	neg := false
+	for {
+		switch c.Op {
+		case "ne":
+			c = &Term{Op: "eq", S: c.S, Args: c.Args}
+			neg = !neg
+			continue
+		case "not":
+			c = c.Args[0]
+			neg = !neg
+			continue
+		}
+		return c, neg
+	}
+}
+
 // atoms collects the distinct branch conditions of a decision tree term.
 func atoms(t *Term, set map[string]*Term) {
 	if t.Op == "ite" {
-		c := t.Args[0]
+		c, _ := atomOf(t.Args[0])
 		if _, ok := set[c.Key()]; !ok {
 			set[c.Key()] = c
 		}
@@ -75,7 +95,8 @@ func atoms(t *Term, set map[string]*Term) {
 
 func evalTree(t *Term, asg map[string]bool) *Term {
 	for t.Op == "ite" {
-		if asg[t.Args[0].Key()] {
+		c, neg := atomOf(t.Args[0])
+		if asg[c.Key()] != neg {
 			t = t.Args[1]
 		} else {
 			t = t.Args[2]
@@ -109,6 +130,23 @@ func equivTrees(a, b *Term) (bool, string) {
 			asg[k] = m&(1<<i) != 0
 		}
 		x, y := evalTree(a, asg), evalTree(b, asg)
+		if x.Key() != y.Key() {
+			// a leaf may mention a branch condition as a VALUE (return len(l) == 0): under this
+			// assignment the condition has a known truth value
+			known := func(t *Term) *Term {
+				if t.Op != "eq" && t.Op != "ne" && t.Op != "lt" && t.Op != "le" && t.Op != "fld" && t.Op != "app" {
+					return nil
+				}
+				c, neg := atomOf(t)
+				if v, ok := asg[c.Key()]; ok {
+					if _, isAtom := set[c.Key()]; isAtom {
+						return cBool(v != neg)
+					}
+				}
+				return nil
+			}
+			x, y = x.subst(known), y.subst(known)
+		}
 		if x.Key() != y.Key() {
 			var cs []string
 			for _, k := range keys {
